@@ -7,6 +7,13 @@ BASE_NOTE = ("Trusted: Coq 8.16.1 kernel (no native_compute; vm_compute only in 
              "(Print Assumptions parsed every run; theorems at R would add the 3 stdlib real axioms); ExtrOcamlBasic extraction with Z/Q/Qc kept as datatypes + a Zarith I/O driver; "
              "the Python correspondence harness and its tolerances; JAX/NumPy primitives are modelled by contracts (rfftn/irfftn = DFT half-spectrum, scan = fold, exp). ")
 CLAIMED = {
+ "C13": dict(text="Theorems over any field of characteristic 0: the 16 conversion functions (re-translated from generic/_utils.py on every run) are mutual inverses and equal the documented "
+                  "formulas; dt*symbol_{L,a}(k) = symbol_{1,alpha}(k) at every mode for every coefficient list; rescaling invariance of the groups; every ETD tableau depends on (h,N) only "
+                  "through h*N; the linear symbol of each concrete stepper equals the generic symbol with the equivalent coefficient list (D<=3). The hand-written symbol model is compared with "
+                  "the real _build_linear_operator of every class at every stored mode in exact rational arithmetic.",
+             note="The scaling of the built-in nonlinear terms with 1/L (beta_1 = b dt/L, beta_2 = b dt/L^2) is proved only at tableau level (h*N) and checked on the real code by the witness "
+                  "(general vs normalized vs difficulty steppers, rescalings, orders 0-4). Empty-tuple IndexError of reduce/extract is totalised in the model.",
+             technique="Rocq proof (field identities, list induction) on AST-translated conversion functions + exact-rational symbol correspondence", design="§4 C13"),
  "C20": dict(text="Theorems (all shapes, all D/N/C, all flag combinations) that each rejection predicate is true exactly on the documented-invalid inputs: stepper / repeated-stepper "
                   "calls accept iff shape = (C, N,...,N); Poisson iff trailing axes = (N,)*D; operator parity; dimension-restricted steppers and nonlinear terms; channel guards; "
                   "option validation of generators/metrics; stack_sub guards. The predicates (Gen/Guards.v) are re-translated from /repo's `if ...: raise` guards on every run and "
